@@ -21,11 +21,14 @@ pub mod rulecheck;
 pub mod c10;
 pub mod c11;
 pub mod c12;
+pub mod c13;
 pub mod c14;
 pub mod c16;
 pub mod c17;
 pub mod c18;
 pub mod c19;
+pub mod c20;
+pub mod c21;
 pub mod c22;
 pub mod c24;
 pub mod c25;
